@@ -1,5 +1,6 @@
 import Cel.Drv.Util
 import Cel.Model.Str
+import Cel.Model.Lex
 namespace Cel.Drv.C07
 open Cel Cel.Drv Cel.Str
 
@@ -18,8 +19,16 @@ def showOpt : Option Text → String
   int / uint       interpreter: IntType(text) / UintType(text without suffix)
   cint / cuint     compiled runner: pasted text evaluated as Python source
   spelled / spelledb   the CEL reference decoder on a body
-  utf8 / unutf8    UTF-8 encode / strict decode -/
+  utf8 / unutf8    UTF-8 encode / strict decode
+  `lex <TERMINAL> <text>`   length of the match of the terminal's regex at the start of the text (`re.match`) -/
 def handle : Handler
+  | ["lex", term, a] =>
+    match parseText a, Cel.Lex.terminals.lookup term with
+    | some t, some r =>
+      (match Cel.Lex.lexLen r t with
+       | some n => s!"some {n}"
+       | none => "none")
+    | _, _ => "bad-arg"
   | [fn, a] =>
     match parseText a with
     | none => "bad-arg"
